@@ -13,6 +13,7 @@
 #include "lltdPort.h"
 
 #include "lltdAutomata.h"
+#include "lltdTlvOps.h"
 #include "lltdBlock.h"
 #include "lltd_esp32.h"
 
@@ -402,6 +403,50 @@ static void do_prx(char **tok, int ntok) {
     prx.pending = 0;
 }
 
+/* TLV id off fill : the property writers no Hello uses (support URL, UPnP UUID, hardware id, 802.11 medium),
+ * each called at offset off of a buffer filled with `fill' (beyond the listed properties: Check id XTLV) */
+static void do_tlv(char **tok, int ntok) {
+    if (ntok < 4) die("TLV needs: id off fill");
+    int id = atoi(tok[1]);
+    vif *v = vp_if[id];
+    if (!v) die("interface not booted");
+    size_t off = (size_t)strtoul(tok[2], NULL, 0);
+    uint8_t fill = (uint8_t)strtoul(tok[3], NULL, 0);
+    size_t cap = off + 2 + 64 + 40;
+    uint8_t *buf = malloc(cap);
+    static const char *names[4] = {"support", "uuid", "hwid", "medium"};
+    static const char url[] = "https://example.invalid/support";
+    for (int w = 0; w < 4; w++) {
+        memset(buf, fill, cap);
+        vp_cur = v;
+        vp_out_begin();
+        arm_faults();
+        size_t ret = w == 0 ? setSupportInfoTLV(buf, off) : w == 1 ? setUuidTLV(buf, off)
+                   : w == 2 ? setHardwareIdTLV(buf, off) : set80211MediumTLV(buf, off, v);
+        uint32_t gf = vp_getters_failed;
+        disarm_faults();
+        vp_cur = NULL;
+        if (ret > cap - off) ret = cap - off;          /* never print past the buffer; the monitor rejects the size */
+        /* a writer that returns 0 claims to have written nothing it stands for: what it scribbled is not logged as content */
+        int clean = 1;
+        for (size_t i = 0; i < cap; i++)
+            if ((i < off || i >= off + (ret ? ret : (w == 2 ? 66 : 0))) && buf[i] != fill) clean = 0;
+        fprintf(tr, "{\"e\":\"tlv\",\"ln\":%ld,\"ifc\":%d,\"w\":\"%s\",\"off\":%zu,\"fill\":%u,\"ret\":%zu,\"clean\":%d,\"gf\":%u,\"b\":",
+                lineno, id, names[w], off, fill, ret, clean, gf);
+        vp_json_bytes(tr, buf + off, ret);
+        fprintf(tr, ",\"url\":");
+        vp_json_bytes(tr, (const uint8_t *)url, sizeof url - 1);
+        fprintf(tr, ",\"uuid\":");
+        vp_json_bytes(tr, vp_cfg.uuid, vp_cfg.uuid_present ? 16 : 0);
+        fprintf(tr, ",\"hwid\":");
+        vp_json_bytes(tr, vp_cfg.hwid, vp_cfg.hwid_len);
+        fprintf(tr, ",\"wifi\":%d,\"phy\":[%u,%u]}\n", v->wifi, v->phy >> 16, v->phy & 0xFFFF);
+        evno++;
+    }
+    fflush(tr);
+    free(buf);
+}
+
 /* DRAIN id max len fill hex : repeat a Query until the more-flag clears */
 static void do_drain(char **tok, int ntok, int large) {
     if (ntok < 6) die("DRAIN needs: id max len fill hex");
@@ -522,6 +567,7 @@ int main(int argc, char **argv) {
         else if (!strcmp(tok[0], "FLOOD")) do_flood(tok, ntok);
         else if (!strcmp(tok[0], "PIPE")) do_pipe(tok, ntok);
         else if (!strcmp(tok[0], "PRX")) do_prx(tok, ntok);
+        else if (!strcmp(tok[0], "TLV")) do_tlv(tok, ntok);
         else if (!strcmp(tok[0], "ADV")) vp_now_ms += strtoull(tok[1], NULL, 0);
         else if (!strcmp(tok[0], "FAULT")) {
             plan_alloc = kvl(tok, ntok, "alloc", 0);
